@@ -108,7 +108,7 @@ CHECKS = {
     engine="capcheck",
     technique="relational abstract interpretation: for every zeroing memset and every zero-only store loop into a caller buffer the equality 'start offset + length == declared size' is entailed in both directions from the loop invariants",
     category="other",
-    text="Decides a necessary structural clause for all result lengths and all dmax (including both sides of the 0x20 memset/loop switch, since both forms are obligations): slack clearing ends exactly at dest + dmax (a stale counter, a unit slip - elements for bytes - or a loop that stops early breaks the equality), and it starts without a gap: at the buffer start or not behind the end of something the function wrote (a store, or the element count returned by a converter/formatter); a start a constant distance behind every such write is reported, starts computed from a reloaded value are not decided (88 of 127 decided). That a terminator is present on every success path is C03 (thorough: no-slack build); that the elements in front are exactly the result is value-level (C06) and not decided.",
+    text="Decides a necessary structural clause for all result lengths and all dmax (including both sides of the 0x20 memset/loop switch, since both forms are obligations): slack clearing ends exactly at dest + dmax (a stale counter, a unit slip - elements for bytes - or a loop that stops early breaks the equality), and it starts without a gap: at the buffer start or not behind the end of something the function wrote (a store, or the element count returned by a converter/formatter); a start a constant distance behind every such write is reported, starts computed from a reloaded value are not decided. Third clause (path engine, destination typestate): on every success return of the 28 string producers on which the call stored into dest, dest has been zeroed up to dest+dmax since the last non-zero store - by a memset or zero-only loop that the end clause certified, a full clearing, or a nested producer's own success; seven functions that returned success without any clearing were repaired (fix: c47f74e). That a terminator is present on every success path is C03 (thorough: no-slack build); that the elements in front are exactly the result is value-level (C06) and not decided.",
     design_ref="DESIGN.md §3.2, §4 C08",
     note=TB + "; functions in tables/cap_reach.json (4 clearing writes: strnset_s, wcsnset_s, wcsfc_s, wcsnorm_compose_s) are not analysed"),
  "C17": dict(
